@@ -96,6 +96,14 @@ class _Handler(http.server.BaseHTTPRequestHandler):
         blob = srv.resources.get(self.path)
         with srv.lock:
             srv.requests.append((self.path, self.headers.get("Range")))
+        target = getattr(srv, "redirects", {}).get(self.path)
+        if target is not None:
+            # a download link: temporary redirect to the object currently behind it
+            self.send_response(302, "Found")
+            self.send_header("Location", target)
+            self.send_header("Content-Length", "0")
+            self.end_headers()
+            return
         if blob is None:
             self.send_response(404, "Not Found")
             self.send_header("Content-Length", "0")
@@ -144,6 +152,13 @@ class RangeServer:
         if not path.startswith("/"):
             path = "/" + path
         self.httpd.resources[path] = blob
+        return f"http://127.0.0.1:{self.port}{path}"
+
+    def redirect(self, path, target_path):
+        """`path` answers 302 -> target_path (can be re-pointed at any time)."""
+        if not hasattr(self.httpd, "redirects"):
+            self.httpd.redirects = {}
+        self.httpd.redirects[path] = target_path
         return f"http://127.0.0.1:{self.port}{path}"
 
     @property
